@@ -311,7 +311,7 @@ pub fn check_c01(ctx: &Ctx, known: &KnownFindings) -> Report {
         rep.direct(name, r, &ks);
     }
     let prop = (1200usize, c01_case);
-    let r = drive(&prop, ctx.cases(300_000, 6_000_000), ctx, 1, &ks);
+    let r = drive(&prop, ctx.cases(2_000_000, 30_000_000), ctx, 1, &ks);
     rep.absorb(r);
     rep.require(&["parse:valid", "parse:damaged", "parse:raw", "parse:long", "parse:ok", "parse:err", "prim", "parse:len>65535"]);
     rep
@@ -494,7 +494,7 @@ pub fn check_c02(ctx: &Ctx, known: &KnownFindings) -> Report {
         rep.direct(&name, r, &ks);
     }
     let prop = (1200usize, c02_case);
-    let r = drive(&prop, ctx.cases(300_000, 6_000_000), ctx, 2, &ks);
+    let r = drive(&prop, ctx.cases(2_000_000, 30_000_000), ctx, 2, &ks);
     rep.absorb(r);
     let mut req: Vec<String> = CLAUSES.iter().map(|c| format!("reject:{}", c)).collect();
     req.push("accept".into());
